@@ -423,9 +423,12 @@ class WorkerPool:
         raise ValueError('No worker is available.')
     # Always set blocking to True as run is blocking.
     task = Task.maybe_as_task(task).set(blocking=True)
-    result = worker.submit(task).result()
-    worker.release()
-    return result
+    try:
+      return worker.submit(task).result()
+    finally:
+      # Also when the task raises; and also the workers that were acquired
+      # while looking for an idle one but turned out to be busy or not alive.
+      self.release_all()
 
   def iterate(
       self,
